@@ -257,6 +257,15 @@ func OracleC04(run *common.Run, id string, res *Result) int {
 	if res.DstMax > res.Keff {
 		fail("inflight-dst", fmt.Sprintf("%d destination operations in flight, Concurrency=%d (effective %d)", res.DstMax, c.K, res.Keff))
 	}
+	if c.OwnLim {
+		// the limiter itself (read through the verif hook): no operation without a permit, no permit lost
+		if res.LimBad != "" {
+			fail("op-without-permit", res.LimBad)
+		}
+		if res.LimFree != res.Keff {
+			fail("permit-leak", fmt.Sprintf("%d of %d permits are free after the call returned", res.LimFree, res.Keff))
+		}
+	}
 	N := len(g.Nodes)
 	type pos []int
 	cnt := map[string]pos{}
@@ -265,6 +274,7 @@ func OracleC04(run *common.Run, id string, res *Result) int {
 		cnt[key] = append(cnt[key], i)
 	}
 	injected := false
+	var failedNodes []int // nodes one of whose callbacks returned an error
 	for i, s := range res.Toks {
 		t := parseTok(s)
 		if t.op != "RT" && t.op != "CX" && t.n < 0 {
@@ -281,6 +291,8 @@ func OracleC04(run *common.Run, id string, res *Result) int {
 		case "XE":
 			if t.a == "1" {
 				add("XE1", t.n, i)
+			} else {
+				add("XE0", t.n, i)
 			}
 		case "MB":
 			add("MB", t.n, i)
@@ -296,6 +308,7 @@ func OracleC04(run *common.Run, id string, res *Result) int {
 			add("CB"+t.kind, t.n, i)
 		case "CF":
 			injected = true
+			failedNodes = append(failedNodes, t.n)
 		}
 	}
 	at := func(k string, n int) pos { return cnt[k+"."+strconv.Itoa(n)] }
@@ -380,6 +393,38 @@ func OracleC04(run *common.Run, id string, res *Result) int {
 			}
 		}
 	}
+	// "an error returned by a callback aborts the copy": a node whose callback failed never completes, so no
+	// predecessor of it may be copied -- at any time of the run (copyGraph.fn closes the tracker's done channel
+	// only on success; a predecessor passes its successor wait only through closed channels).
+	// Theorem C04_failed_successor_blocks_predecessors.
+	for _, fn := range failedNodes {
+		if fn < 0 || fn >= N || g.Nodes[fn].Foreign() {
+			continue
+		}
+		for p := 0; p < N; p++ {
+			isPred := false
+			for _, s := range g.Nodes[p].Succ {
+				if s == fn {
+					isPred = true
+				}
+			}
+			if !isPred {
+				continue
+			}
+			var what []string
+			for _, k := range []string{"CBpre", "CBpost", "CBmounted", "CBmountfrom", "MB"} {
+				if len(at(k, p)) > 0 {
+					what = append(what, k)
+				}
+			}
+			if len(at("XE0", p)) > 0 && len(at("PB", p)) > 0 {
+				what = append(what, "push")
+			}
+			if len(what) > 0 {
+				fail("copy-past-failed-successor", fmt.Sprintf("a callback of node %d returned an error, yet its predecessor %d was copied (%s)", fn, p, strings.Join(what, ",")))
+			}
+		}
+	}
 	if injected && !errors.Is(res.Err, errInjected) {
 		fail("callback-error-lost", fmt.Sprintf("callback %s on node %d returned an error, the copy returned %v", c.FailCb, c.FailNode, res.Err))
 	}
@@ -389,6 +434,7 @@ func OracleC04(run *common.Run, id string, res *Result) int {
 // Budget of one harness run.
 type Budget struct {
 	Main, Contention, Twin, CbFail, Mount, Remote, RootPresent, Extended, TwinReach, PlatImage, Cancel int
+	Claim                                 int // tiny graphs in which up to 8 goroutines claim one descriptor at the same instant (TryCommit)
 	Sched, SchedReps, SchedEnum, SchedEnumCap int // graphs run under testing/synctest with the PRNG-controlled scheduler, extra schedules per graph
 	Small                                 bool // small-scope enumeration (graphs <= 3 nodes, sampled 4-node graphs) x roots x closed subsets
 	Reps                           int // extra schedules (latency seeds) per generated case
@@ -408,7 +454,11 @@ func Drive(run *common.Run, prop string, b Budget) {
 	rootRand := common.NewRand(binary.LittleEndian.Uint64(h[:8]))
 	selfTested := map[uint64]bool{}
 	var lastRes *Result
+	confirmedHangs, stopped := 0, false
 	one := func(c *Case) {
+		if stopped {
+			return
+		}
 		id := run.NewID()
 		if js, err := json.Marshal(c); err == nil {
 			os.WriteFile(currentCasePath(run.Dir), js, 0o644)
@@ -448,6 +498,16 @@ func Drive(run *common.Run, prop string, b Budget) {
 		}
 		if c.Sched {
 			run.Count("controlled-schedule(synctest)")
+		}
+		if c.Barrier {
+			run.Count("FindSuccessors barrier (simultaneous claims of a shared successor)")
+		}
+		if c.OneP {
+			run.Count("single-P schedule (GOMAXPROCS 1)")
+		}
+		if c.OwnLim && res.LimProbes > 0 {
+			run.Count("limiter read at every event (verif hook)")
+			run.Extra["limiter_probes"] = maxInt(run.Extra["limiter_probes"], 0) + res.LimProbes
 		}
 		if c.Stream == "twinreach" && res.Err == nil && (c.Dst == "oci" || c.Dst == "ocire" || (c.Dst == "file" && len(c.Titled) > 0)) {
 			miss := false
@@ -512,6 +572,11 @@ func Drive(run *common.Run, prop string, b Budget) {
 				res = res2
 			} else {
 				oracle(run, id, res)
+				// a wedge is reported with its replay; two confirmed ones end the run (every further case of the
+				// kind would cost two watchdog periods): no check may take hours because the code deadlocks
+				if confirmedHangs++; confirmedHangs >= 2 {
+					stopped = true
+				}
 				return
 			}
 		}
@@ -655,6 +720,7 @@ func Drive(run *common.Run, prop string, b Budget) {
 	stream("remote", b.Remote)
 	stream("cancel", b.Cancel)
 	stream("platimage", b.PlatImage)
+	stream("claim", b.Claim)
 	stream("twin", b.Twin)
 	stream("twinreach", b.TwinReach)
 	if T != nil {
@@ -679,6 +745,9 @@ func Drive(run *common.Run, prop string, b Budget) {
 	}
 	os.Remove(currentCasePath(run.Dir))
 
+	if stopped {
+		return // ended early after confirmed wedges (reported as oracle failures): the floors do not apply
+	}
 	// coverage floors: a run whose streams did not reach the situations they exist for must not pass silently
 	// (reported as a harness failure = layer R, not as a property violation)
 	floor := func(what string, got, want int) {
@@ -706,6 +775,9 @@ func Drive(run *common.Run, prop string, b Budget) {
 	}
 	if T != nil && b.Sched > 0 {
 		floor("controlled schedules", run.Dist["controlled-schedule(synctest)"], b.Sched)
+	}
+	if prop == "C04" && b.Main+b.Contention >= 100 {
+		floor("CopyGraph runs whose limiter was read at every event", run.Dist["limiter read at every event (verif hook)"], 30)
 	}
 }
 
